@@ -50,6 +50,7 @@ import (
 	"github.com/jech/galene/group"
 	"github.com/jech/galene/rtpconn"
 
+	"verifharness/internal/sigdrv"
 	"verifharness/internal/tr"
 )
 
@@ -1681,6 +1682,52 @@ func isoCase(t *tr.Trace, r *tr.Rand) {
 	}
 }
 
+// wsJoinExact: the username of a join is matched EXACTLY, also on the way
+// through the signalling handler (the path a browser takes): a name that has
+// no entry - "jch" padded with blanks, in another case, with a trailing NUL -
+// is not the user jch.  It is refused where there is no wildcard user and gets
+// the wildcard user's rights (not jch's) where there is one.  Monitors only.
+func wsJoinExact(t *tr.Trace) {
+	t.History("authws", "ws-join-exact")
+	saveDir, saveData := group.Directory, group.DataDirectory
+	defer func() { group.Directory, group.DataDirectory = saveDir, saveData }()
+	sigdrv.Quiet()
+	w, err := sigdrv.NewWorld()
+	if err != nil {
+		t.Fail("C08", "harness", err.Error())
+		return
+	}
+	defer w.Close()
+	w.AddGroup(sigdrv.GroupSpec{Name: "nw", Users: []sigdrv.User{{Name: "jch", Password: "pwj", Permissions: []string{"op", "present", "message"}}}})
+	w.AddGroup(sigdrv.GroupSpec{Name: "ww", Users: []sigdrv.User{{Name: "jch", Password: "pwj", Permissions: []string{"op", "present", "message"}}},
+		WildcardUser: &sigdrv.User{Password: "pwj", Permissions: []string{"message"}}})
+	for i, name := range []string{"jch", " jch", "jch ", "\tjch\n", "Jch", "JCH", "jch\x00", "j ch", "jch\u00a0", "\u200bjch"} {
+		for _, g := range []string{"nw", "ww"} {
+			c := w.NewClient(fmt.Sprintf("x%d%s", i, g))
+			c.Send(sigdrv.M{"type": "join", "kind": "join", "group": g, "username": name, "password": "pwj"})
+			perms := c.Permissions()
+			joined := c.HasGroup()
+			t.Checked("C08.ws_join_username_exact")
+			switch {
+			case name == "jch":
+				if !joined || !contains(perms, "op") {
+					t.Fail("C08", "ws_join_username_exact", fmt.Sprintf("jch with the right password was not admitted as configured in %s: joined=%v %v", g, joined, perms))
+				}
+			case g == "nw":
+				if joined {
+					t.Fail("C08", "ws_join_username_exact", fmt.Sprintf("username %q has no entry in a group without wildcard user, and was admitted with %v (as %q)", name, perms, c.Username()))
+				}
+			default:
+				if joined && (contains(perms, "op") || contains(perms, "present")) {
+					t.Fail("C08", "ws_join_username_exact", fmt.Sprintf("username %q has no entry: it may get the wildcard user's rights [message], it got %v", name, perms))
+				}
+			}
+			c.Disconnect()
+		}
+	}
+	t.Nontrivial("ws-join-exact")
+}
+
 func runAuth(t *tr.Trace, r *tr.Rand, n int) {
 	log.SetOutput(io.Discard)
 	var err error
@@ -1701,6 +1748,7 @@ func runAuth(t *tr.Trace, r *tr.Rand, n int) {
 	}
 
 	corpus(t, r)
+	wsJoinExact(t)
 	isoCorpus(t)
 	isoCorpusDup(t)
 	collisionProbe(t, r)
